@@ -29,7 +29,7 @@ RULE = ('histories of 1..7 opens (auto-detected, a few with format= named) over 
         'empty / 2-byte / ARL-stub files; streams: random, "telling-extension opens then extension-less probes", "same file k times", '
         'named opens interleaved, malformed.  Each history runs in a fresh interpreter; every step is compared with the fresh-interpreter '
         'open of the same file and with the model replayed on the measured accept matrix.  Non-trivial = at least one step whose '
-        'registry prefix contains a reader that claims (or chokes on) the probed file.')
+        'history contains an earlier telling-extension open whose reader claims (or chokes on) the probed file (the pattern that failed before fix C15-registry-alias).')
 TRUSTED = ['accepts(reader, file) = reader.isMine(path) measured once per file in a fresh interpreter (all readers in registry order in one '
            'process): assumed to be a function of (reader class, file) only; F on every history step is what tests this assumption',
            'the selection is observed by wrapping _getreader.getreader from outside (the library function itself runs unchanged, once)',
@@ -452,6 +452,15 @@ def py_check(case, obs):
                 why.append('step %d: %s auto-detected as %s after this history, as %s in a fresh interpreter' % (
                     k, s['f'], (o['sel'], o['pres'].get('cls', o['pres'].get('raises'))),
                     (fr['sel'], fr['pres'].get('cls', fr['pres'].get('raises')))))
+    # clause 2: on a readable self-describing file the auto-detected open presents the dimensions / data of the named open
+    for k, (s, o) in enumerate(zip(case['steps'], obs['steps'])):
+        gt = POOLD[s['f']]
+        if s.get('fmt') is None and gt[2] and gt[3]:
+            nm = obs['base'][s['f']]['named'].get(gt[2])
+            if nm is not None and 'raises' not in nm['pres'] and _data_only(o['pres']) != _data_only(nm['pres']):
+                s_ok = False
+                why.append("step %d: pncopen('%s') presents %s, pncopen('%s', format='%s') presents class %s with other dimensions/data" % (
+                    k, s['f'], o['pres'].get('cls', 'raises ' + str(o['pres'].get('raises'))), s['f'], gt[2], nm['pres'].get('cls')))
     return dict(s_ok=s_ok, f_ok=f_ok, region=0, why='; '.join(why)[:600])
 
 
@@ -510,8 +519,13 @@ def translate():
         ob('getreader', False, 'function missing')
     else:
         src = [un(n) for n in ast.walk(g) if isinstance(n, (ast.Assign, ast.Expr, ast.For, ast.If, ast.Return))]
-        ob('getreader: `_myreaders = _readers` (impl_step: the preference list IS the global registry)',
-           '_myreaders = _readers' in src, 'assignment not found (repaired? then the model must become spec_step)')
+        ob('getreader: `_myreaders = list(_readers)` (impl_step: the preference list is a private copy; fix C15-registry-alias)',
+           '_myreaders = list(_readers)' in src and '_myreaders = _readers' not in src,
+           'assignment not found (reverted to the alias `_myreaders = _readers`? then opens change the global registry)')
+        ob('getreader: nothing but registerreader writes the global registry (no `_readers.insert/append/...` in getreader)',
+           not any(isinstance(n, ast.Call) and un(n.func).startswith('_readers.') for n in ast.walk(g))
+           and not any(isinstance(n, (ast.Assign, ast.AugAssign)) and '_readers' in [un(t) for t in (n.targets if isinstance(n, ast.Assign) else [n.target])]
+                       for n in ast.walk(g)), 'getreader mutates _readers')
         ob('getreader: `_myreaders.insert(0, (ext, rdict[ext]))` under `if ext in rdict` (prefer)',
            any(isinstance(n, ast.If) and un(n.test) == 'ext in rdict' and [un(b) for b in n.body] == ['_myreaders.insert(0, (ext, rdict[ext]))']
                for n in ast.walk(g)), 'statement changed')
@@ -545,17 +559,17 @@ def translate():
     return out
 
 
-LEVEL_TEXT = ('Theorems (Props/C15.v, all closed under the global context) over a state-machine model of the reader registry (Model/Registry.v), '
-              'for every accept relation, registry and history (induction): the repaired getreader is history independent at full strength '
-              '(C15_spec_history_independent); for the code as it is the state after any history is characterised exactly '
-              '(C15_impl_registry_shape, C15_registry_grows, C15_registry_set_preserved), named opens are history independent '
-              '(C15_named_history_independent), a telling extension always selects the named reader (C15_telling_extension_selects_named), a file '
-              'claimed by exactly one registered class is detected as that class after any history (C15_sole_claimant_any_history); the full '
-              'statement is refuted by vm_compute witnesses that replay on the library = known findings (C15_history_independent_refuted, '
-              'C15_history_breaks_open_refuted, C15_registry_unchanged_refuted, C15_auto_equals_named_refuted) and proved on the neutral histories '
-              '(C15_history_independent_partial; `neutral` is region 0 of the correspondence). Tie H: every history in a fresh interpreter, every step '
-              'vs. the model on the measured accept matrix (selected class / escaping exception, registry length per step, final registry) and vs. a '
-              'fresh-interpreter open of the same file (class, dimensions, per-variable digests); tie T: 9 AST anchors of _getreader.py.')
+LEVEL_TEXT = ('Theorems (Props/C15.v, all closed under the global context) over a state-machine model of the reader registry (Model/Registry.v) '
+              'describing the repaired getreader (`_myreaders = list(_readers)`), for every accept relation, registry and history (induction): an '
+              'open never changes the registry (C15_getreader_pure, C15_registry_unchanged, C15_registry_length_constant), every open of any history '
+              'selects what a fresh process selects (C15_history_independent, C15_probe_after_history: the first clause at full strength), a telling '
+              'extension always selects the named reader (C15_telling_extension_selects_named), a file claimed by exactly one registered class is '
+              'detected as that class under any suffix after any history (C15_sole_claimant_any_history) and there auto = named '
+              '(C15_auto_equals_named_partial); the second clause is refuted for files several classes claim (C15_auto_equals_named_refuted, '
+              'vm_compute; replays on the library = known finding C15-auto-not-named). Tie H: every history in a fresh interpreter, every step vs. the '
+              'model on the measured accept matrix (selected class / escaping exception, registry length per step, final registry) and vs. a '
+              'fresh-interpreter open of the same file (class, dimensions, per-variable digests); tie T: 10 AST anchors of _getreader.py. The '
+              'witnesses of the repaired defects run first on every run (corpus/C15).')
 LEVEL_NOTE = ('Trusted: Coq kernel + vm_compute; the harness; isMine outcome is a function of (reader class, file) (measured once per file in a fresh '
               'interpreter; F on every step tests it); presentations compared by sha1 digests. Not modelled: what a reader class presents for a file '
               '(abstract id), spontaneous GC timing, registration by class creation after import (none exists in the tree; a mutation doing so is '
